@@ -25,6 +25,7 @@ def saving_tables(case):
     """Collective and point saving tables [n+1][n+1][p] from the generating data."""
     n, p = case["n"], case["p"]
     fam = case["family"]
+    charge = case.get("charge", 0)
 
     def from_increments(u, kind):
         u = np.asarray(u, dtype=float).reshape(n, p)
@@ -33,7 +34,8 @@ def saving_tables(case):
         for s in range(n):
             for e in range(s + 1, n + 1):
                 d = cs[e] - cs[s]
-                T[s, e] = np.abs(d) if kind == "abs" else np.maximum(d, 0.0)
+                # a per-sample charge keeps the table sub-additive but lets savings be negative
+                T[s, e] = (np.abs(d) if kind == "abs" else np.maximum(d, 0.0)) - charge * (e - s)
         return T
 
     if fam in ("abs", "pos"):
@@ -61,9 +63,10 @@ def table_cases(draw, tier):
     if fam in ("abs", "pos"):
         case["u"] = draw(st.lists(st.integers(-3, 3), min_size=n * p, max_size=n * p))
         case["v"] = draw(st.lists(st.integers(-4, 4), min_size=n * p, max_size=n * p))
+        case["charge"] = draw(st.sampled_from([0, 0, 1, 2]))
     else:
         m = (n + 1) * (n + 1) * p
-        case["raw"] = draw(st.lists(st.integers(0, 7), min_size=m, max_size=m))
+        case["raw"] = draw(st.lists(st.integers(-3, 7), min_size=m, max_size=m))  # savings may be negative
     det = draw(st.sampled_from(["CAPA", "MVCAPA", "MVCAPA"]))
     case["detector"] = det
     if det == "CAPA":
@@ -194,6 +197,7 @@ def check_table(case):
     pruned = evals < unpruned_collective_evaluations(n, msl, maxl)
     classes = [f"family={case['family']}", f"detector={case['detector']}"]
     for flag, name in ((has_coll, "collective"), (has_point, "point"), (p > 1, "p>1"),
+                       (bool(np.any(S < 0) or np.any(P < 0)), "negative_savings"),
                        (pruned, "pruning_observed"), (n == msl, "n=msl"), (maxl == msl, "maxl=msl"),
                        (any(a < msl - 1 and b - a == 1 for a, b in events), "point_in_first_msl-1")):
         if flag:
@@ -380,7 +384,7 @@ FACETS = [
         name="table_savings",
         check=check_table,
         strategy=table_cases,
-        rule=("user-defined integer TableSaving (|sum u|, max(0,sum u), sub-additive closure), p 1..3, n in [msl,14], "
+        rule=("user-defined integer TableSaving (|sum u| or max(0,sum u) minus a per-sample charge, sub-additive closure of a signed table), p 1..3, n in [msl,14], "
               "msl 2..4, maxl in [msl,n+2]; CAPA with penalty scales incl. 0 and MVCAPA with user penalty callables "
               "(integer alpha, betas zero/equal/arbitrary); non-trivial = optimum contains >=1 collective anomaly"),
         n_quick=1600, n_thorough=25000, shards_quick=8, shards_thorough=16,
